@@ -7,6 +7,7 @@ import (
 	"time"
 
 	"github.com/pion/ice/v4"
+	"github.com/pion/stun/v3"
 
 	"verif/sim/core"
 	"verif/sim/simnet"
@@ -29,6 +30,8 @@ type Duo struct {
 	Wire []*WireEv
 	// Delivered maps datagram id -> true once it was handed to a socket.
 	Delivered map[uint64]bool
+	// Stun is the simulated STUN server (only with NAT topologies).
+	Stun *StunServer
 	// AroundSignal, when set, wraps every Signal (for before/after oracles).
 	AroundSignal func(from, to *AgentH, c ice.Candidate, do func())
 }
@@ -55,6 +58,9 @@ type DuoCfg struct {
 	// AliasA/B: external 1:1 address used for srflx address-rewrite candidates ("" = none).
 	AliasA, AliasB string
 	OptsA, OptsB   []ice.AgentOption
+	// NATA/NATB put the host behind a NAT of that kind (0 = none, otherwise simnet.NATKind+1) and add a
+	// STUN server (srflx candidates are then gathered with a real STUN exchange).
+	NATA, NATB int
 }
 
 // NewDuo builds the world and both agents (not yet gathering).
@@ -73,6 +79,31 @@ func NewDuo(c *core.Ctx, cfg DuoCfg) (*Duo, error) {
 		Deltas: []time.Duration{time.Millisecond, 5 * time.Millisecond, 20 * time.Millisecond, 50 * time.Millisecond, 200 * time.Millisecond}}
 	d.HA = d.W.SimpleHost("A", cfg.AddrsA...)
 	d.HB = d.W.SimpleHost("B", cfg.AddrsB...)
+	natPriv := map[netip.Addr]bool{}
+	var stunOpt []ice.AgentOption
+	if cfg.NATA != 0 || cfg.NATB != 0 {
+		srv := d.W.SimpleHost("S", "203.0.113.5")
+		d.Stun = NewStunServer(srv, "203.0.113.5:3478")
+		u, _ := stun.ParseURI("stun:203.0.113.5:3478")
+		stunOpt = []ice.AgentOption{ice.WithUrls([]*stun.URI{u}), ice.WithSTUNGatherTimeout(300 * time.Millisecond)}
+	}
+	if cfg.NATA != 0 {
+		d.HA.NAT = simnet.NewNAT(simnet.NATKind(cfg.NATA-1), "203.0.113.1")
+		for _, ip := range d.HA.IPs() {
+			natPriv[ip] = true
+		}
+	}
+	if cfg.NATB != 0 {
+		d.HB.NAT = simnet.NewNAT(simnet.NATKind(cfg.NATB-1), "203.0.113.2")
+		for _, ip := range d.HB.IPs() {
+			natPriv[ip] = true
+		}
+	}
+	if len(natPriv) > 0 {
+		// private addresses behind a NAT are not routable from outside
+		inner := d.W.Reach
+		d.W.Reach = func(src, dst netip.AddrPort) bool { return !natPriv[dst.Addr()] && inner(src, dst) }
+	}
 	mk := func(name string, h *simnet.Host, alias string, opts []ice.AgentOption) (*AgentH, error) {
 		o := []ice.AgentOption{ice.WithNetworkTypes([]ice.NetworkType{ice.NetworkTypeUDP4})}
 		if alias != "" {
@@ -80,6 +111,9 @@ func NewDuo(c *core.Ctx, cfg DuoCfg) (*Duo, error) {
 			o = append(o, ice.WithAddressRewriteRules(ice.AddressRewriteRule{
 				External: []string{alias}, AsCandidateType: ice.CandidateTypeServerReflexive,
 			}))
+		}
+		if h.NAT != nil {
+			o = append(o, stunOpt...)
 		}
 		return NewAgent(name, h, d.Start, append(o, opts...)...)
 	}
@@ -107,6 +141,14 @@ func (d *Duo) Gather(a *AgentH) error {
 		cs := a.CandSeq()
 		if len(cs) > n0 && cs[len(cs)-1] == nil {
 			return nil
+		}
+		if d.Stun != nil {
+			// STUN exchanges of the gatherers (and their replies) are served at once
+			for _, dg := range d.W.InFlight() {
+				if dg.Dst == d.Stun.Addr || dg.Src == d.Stun.Addr {
+					d.S.Deliver(dg)
+				}
+			}
 		}
 		d.S.Advance(10 * time.Millisecond)
 	}
